@@ -19,6 +19,10 @@ def run(res, only=None):
     #     (matrix_of(q) exact, (pq)v = p(qv))
     p_c03.linalg_cases(res, cfgs, prop="C05")
     p_c04.quat_cases(res, cfgs, prop="C05")
+    # (3) code -> spec on random rotations (small, generic, nearly half-turn: all four extraction branches): every from_quat and every
+    #     from_mat* / from_affine3 pair (q, M) must satisfy the quaternion-to-matrix polynomial entry by entry (Trace_Rel.tla quat_mat)
+    core.record_and_validate(res, "rel", [c for c in cfgs if c != "sse2-rel"], draws=2 if res.tier == "quick" else 60, module="Trace_Rel",
+                             chunks=2 if res.tier == "quick" else 8, expect_kinds=("rel",), ops=["quat_mat"])
     res.rule = ("conversion graph with 9 representations and 38 conversion functions: every chain of up to 4 conversions from every seed "
                 "rotation (Euler XYZ triples of the 45-degree grid: all 512 in thorough, ~47 in quick; all four branches of matrix->quaternion "
                 "are reached and counted, half-turns included) with the action on three probe vectors compared with the exact ring matrix "
